@@ -60,10 +60,13 @@ Definition C12_slicing_stmt : Prop :=
    statement for the body phase of a member (everything after its realigned header, i.e. all but
    the first <= 6 bytes): any two sequences of calls, with any buffers, cursors and amounts of free
    output space (including none), that consume the same bytes write the same bytes and hold back the
-   same two bytes, by the delay-line equation C12_body_delay_line; (3) C12_restore / C12_serialize -
-   save/restore never matters.  Missing: the same commutation for the three short phases at a member
-   boundary (strip the previous end marker; collect the 5 look-ahead bytes; emit the realigned
-   header) and the induction over members, including the error answers; that part of the statement
+   same two bytes, by the delay-line equation C12_body_delay_line; (3) the analogous equations for
+   the look-ahead collection and for the emission of the realigned header (C12_collect_append,
+   C12_emit_owed); (4) C12_restore / C12_serialize - save/restore never matters.  Missing: that
+   flush_previous_stream and the header realignment depend on the output buffer only through
+   "is there room for one byte" (true by inspection since repair 1b792a2, not yet a lemma), the
+   glue of the four phases inside one `stream` call, and the induction over members including the
+   error answers; that part of the statement
    is covered by the differential check only (checks/c12.py: every split point, every zero-space
    call index, 1-byte buffers, against the one-shot run). *)
 Theorem C12_slicing_partial : forall fuel caps percall rall rs tasks s0,
@@ -90,6 +93,31 @@ Theorem C12_slicing_body : forall s c e1 e2 s1 s2,
   e1 = e2 /\ lb0 s1 = lb0 s2 /\ lb1 s1 = lb1 s2.
 Proof. exact body_slicing_independent. Qed.
 Print Assumptions C12_slicing_body.
+
+(* The same kind of equation for the two short phases that handle stored bytes: the look-ahead grows
+   by exactly the bytes consumed (and stops at 5), and while the realigned header is written out,
+   what a call wrote followed by what is still owed is what was owed before. *)
+Theorem C12_collect_append : forall s p input in_off s1 p1 in1,
+  lenN (bytes_so_far p) = 5 -> num_bytes_read p <= 5 -> in_off <= lenN input ->
+  collect_header s p input in_off = Val (s1, p1, in1) ->
+  takeN (num_bytes_read p1) (bytes_so_far p1) = takeN (num_bytes_read p) (bytes_so_far p) ++ span input in_off in1 /\
+  num_bytes_read p1 = N.min 5 (num_bytes_read p + (lenN input - in_off)) /\
+  in1 = in_off + (num_bytes_read p1 - num_bytes_read p) /\ num_bytes_written p1 = num_bytes_written p.
+Proof. exact collect_append. Qed.
+Print Assumptions C12_collect_append.
+
+Theorem C12_emit_owed : forall s p out off f,
+  lenN (bytes_so_far p) = 5 -> num_bytes_read p <= 5 -> off <= lenN out ->
+  (exists w, num_bytes_written p = Some w /\ w <= num_bytes_read p) ->
+  shift_emit s p out off = Val f ->
+  takeN off (f_out f) = takeN off out /\
+  ((f_rc f = NeedsMoreOutput /\ exists p', new_stream_pending (f_s f) = Some p' /\
+      span (f_out f) off (f_off f) ++ owed p' = owed p) \/
+   (f_rc f = Success /\ new_stream_pending (f_s f) = None /\ last_bytes_len (f_s f) = 1 /\
+      exists k, span (f_out f) off k = owed p /\ f_off f + 1 = k /\
+                (1 <= lenN (owed p) -> [lb0 (f_s f)] = span (f_out f) (f_off f) k))).
+Proof. exact shift_emit_delay. Qed.
+Print Assumptions C12_emit_owed.
 
 (* The code before the repairs violated the slicing statement in three ways (each replayed on the
    real pre-fix code; all fixed, see known_findings.json): *)
